@@ -36,14 +36,14 @@ func (c *ShipConnection) handleShipMessage(timeout bool, message []byte) {
 
 				//
 				c.dataWriter.CloseDataConnection(4001, "close")
-				c.infoProvider.HandleConnectionClosed(c, c.getState() == model.SmeStateComplete)
+				c.reportConnectionClosed(c.getState() == model.SmeStateComplete)
 			case model.ConnectionClosePhaseTypeConfirm:
 				// the connection ends here, a running handshake timer must not fire any more
 				c.stopHandshakeTimer()
 
 				// we got a confirmation so close this connection
 				c.dataWriter.CloseDataConnection(4001, "close")
-				c.infoProvider.HandleConnectionClosed(c, c.getState() == model.SmeStateComplete)
+				c.reportConnectionClosed(c.getState() == model.SmeStateComplete)
 			}
 
 			return
